@@ -69,6 +69,108 @@ CLAIMED = {
         "preferred unless restricted) and its real RSA; ideal signatures; harness (metadata writer, message builder, matching of certificate "
         "files handed to the stand-in, translator harness/translate/keys.py); mdstore XML->dict conversion exercised, not modelled. Single source.",
         "DESIGN.md section 6 C03"),
+    "C09": (
+        "Lean 4 proof over an executable model of Server.create_authn_response composed with the shared SP model; regenerated defaults/allow-list table; real IdP -> independent XML reader -> real SP",
+        "Machine-checked proof (Lean 4), 24 obligations: scoping (issuer, single audience = requester, bearer Recipient/InResponseTo/expiry = "
+        "clock + policy lifetime for the requester, Conditions window, signatures and algorithms by argument > configuration > default) is "
+        "proved for all configurations, arguments, policy dictionaries, identifier stores and clocks; C09_end_to_end: the created Response fed "
+        "to Sp.process yields identity with exactly the reported issuer/NameID/came_from/expiry/attributes for every SP satisfying the "
+        "decidable precondition e2ePre; the NameID-format clause is proved under noStoredReuse, the full statement refuted by a "
+        "machine-checked counterexample (known finding C09/stored-nameid-format-reused). Defaults and allow-lists are regenerated each run. "
+        "Every run creates ~1.5k Responses with the real Server under the virtual clock, reads them with an independent xml.etree reader, "
+        "compares with the model, and feeds them to a real SP built from the same metadata.",
+        "Trusted: Lean kernel (+leanchecker thorough); propext/Classical.choice/Quot.sound; xmlsec1 stand-in and ideal crypto; the independent "
+        "XML reader in c09.py; released attributes and name mapping are parameters (C10/C17), checked by the end-to-end comparison; random "
+        "identifiers as fresh-value parameters; translators idp_defaults.py/spdefaults.py. Encryption/pefim branches belong to C16.",
+        "DESIGN.md section 6 C09"),
+    "C11": (
+        "Lean 4 theorems (invariants by induction over arbitrary operation histories) over a state-machine model of the metadata store + differential correspondence on whole histories",
+        "Machine-checked proof (Lean 4), 40 theorems: for every document, store, clock and history of load / reload / lookup steps with "
+        "arbitrary source and MDQ answers, the model serves exactly the first current, SAML-2.0-supporting occurrence of an entityID per "
+        "source (iff), returns exactly the published endpoints / certificates by use / requested attributes / categories / registration info "
+        "(iff), lets the first configured source win in every lookup, leaves the store unchanged by a load/reload failing at any source k, "
+        "and (reference policy) serves only authentic documents, serves nothing after a failed MDQ refresh and never adds on failure; every "
+        "stored entry is justified by a document of the history. The model of the pinned code meets the spec on every history satisfying the "
+        "decidable side condition cleanRun; the full statement is refuted by two witnesses (known findings: unsigned document accepted despite "
+        "certificate; MDQ entry stored before verification). Every run executes 372 (thorough 4012) random histories (file, inline, remote via "
+        "stubbed HTTP, MDQ via stubbed requests.get; signed/tampered/wrong-key documents through the stand-in; virtual clock) against the real "
+        "MetadataStore, requires model = implementation on every observation and evaluates the Lean spec on the implementation's observations.",
+        "Trusted: Lean kernel (+leanchecker thorough); propext/Quot.sound/Classical.choice; xmlsec1 stand-in and ideal crypto; XML -> saml2.md "
+        "objects -> mdie.to_dict exercised, not modelled; the harness's document writer, canonicalisation and classifier. Generated documents "
+        "are schema-valid; MDQ answers describe the requested entity; discovery-response extensions are covered under C08.",
+        "DESIGN.md section 6 C11"),
+    "C13": (
+        "Lean 4 theorems over an executable XSD validator (regenerated schema tables) and a serialiser-order model (regenerated class rows) + differential correspondence with xmlschema and pysaml2; PARTIAL",
+        "Machine-checked proof (Lean 4), PARTIAL by construction: the Brzozowski-derivative matcher used for XSD content models decides "
+        "regular-language membership for every expression and word (C13_derivative_correct); accepted documents have unique xs:IDs; for 68 "
+        "element classes of saml/samlp/md/xmldsig/xmlenc every instance within the class cardinalities serialises to a child sequence its XSD "
+        "content model accepts (C13_order_partial + C13_order_table by decide +kernel on tables regenerated from the shipped XSD files and "
+        "the class tables each run). The universal claim over builder configurations is NOT proved (C13_full kept as def, two "
+        "counterexamples): each run calls every public create_* builder and metadata generation on random valid configurations (~1.2k "
+        "documents quick), validates every output with the Lean validator, with xmlschema over the shipped XSDs and with valid_instance, and "
+        "compares the Lean validator with xmlschema on one-place mutants of the outputs. Seven known findings.",
+        "Trusted: Lean kernel (+leanchecker thorough); propext/Classical.choice/Quot.sound; the two translators (own XSD reader, class-table "
+        "introspection); harness XML-to-tree conversion; xmlschema 2.5.1 as second oracle (its known laxities excluded from the mutant stream); "
+        "the stand-in plus a --list-transforms shim. Outside: the builders' option logic (explored, not proved); character-level XML; "
+        "facets beyond enumeration/maxLength/finite patterns; message kinds not named by the statement.",
+        "DESIGN.md section 6 C13"),
+    "C14": (
+        "Lean 4 theorems over byte-level executable models of the codecs and bindings (template regenerated from saml2.pack) + exact-output differential correspondence",
+        "Machine-checked proof (Lean 4), 34 theorems: for all byte strings of any length base64, html.escape and quote_plus/urlencode "
+        "round-trip and their outputs are inert; for every message, destination, RelayState and parameter name the HTTP-POST page is well "
+        "formed, its event stream under the attribute scanner is the template's own with caller strings only as escaped attribute-value "
+        "characters, and the receiver recovers message, RelayState and action exactly; redirect and artifact URLs deliver exactly the "
+        "destination's own parameters plus the intended ones and unravel returns the message under the DEFLATE law, for every destination "
+        "without '#' and without an empty query (full statements kept with counterexamples for the recorded findings); SOAP wrap/unwrap at "
+        "tree level and string-splice level; artifacts decode to the index (0..255) and issuer they were created with, out-of-range indexes are "
+        "refused. HTML templates and SOAP constants are regenerated from saml2.pack each run. Every run compares the Lean functions byte for "
+        "byte with base64/html/urllib and with pack.*, Entity.apply_binding/unravel, use_http_artifact, parse_soap_enveloped_saml_thingy, "
+        "create_artifact/artifact2destination (~5k cases) and evaluates the Lean spec on the implementation's output.",
+        "Trusted: Lean kernel (+leanchecker thorough); propext/Classical.choice/Quot.sound; harness (generators, independent XML writer, "
+        "html.parser/parse_qsl as receivers); translator formspec.py. Parameters rather than models: zlib raw DEFLATE, SHA-1, urlparse's "
+        "netloc validation. The browser's HTML parser is replaced by the Lean scanner (part of the statement).",
+        "DESIGN.md section 6 C14"),
+    "C17": (
+        "Lean 4 proof over an executable model of the attribute converters; tables regenerated from saml2.attributemaps each run (decide +kernel lemmas); exhaustive + random differential correspondence",
+        "Machine-checked proof (Lean 4), 17 obligations: for any string type, maps and list lengths the model of from_local/to_/ava_from/"
+        "list_to_local satisfies specToWire, specToLocal and specRoundTrip (declared keys go out under the declared name/format/friendly name "
+        "with exactly the values; known wire attributes come back under the map's local name with values in order, trimmed; unknown ones "
+        "dropped or passed under the wire name when allowed; no attribute or value lost on a round trip) under the decidable side conditions "
+        "sendSide/rtSide/distinctFormats; the full statements are refuted by machine-checked counterexamples for the three recorded findings; "
+        "C17_bundled_wf is re-proved on the regenerated tables of the five bundled maps every run. Every run sends every (map, attribute) "
+        "pair of the bundled maps and random custom map sets through the real converters in both directions and as round trips (~8.6k cases).",
+        "Trusted: Lean kernel (+leanchecker thorough); propext/Quot.sound/Classical.choice; translator attrmaps.py; the injective Nat string "
+        "code with lower/strip checked differentially against Python; harness incl. its finding classifier. XML serialisation of "
+        "saml.Attribute exercised, not modelled; ASCII-only case folding.",
+        "DESIGN.md section 6 C17"),
+    "C18": (
+        "Lean 4 proof over an executable model of saml2.ident (code/decode, IdentDB), Eptid and the code()-keyed store; step-by-step differential run on random operation histories",
+        "Machine-checked proof (Lean 4), 18 obligations: encoding losslessness and injectivity for all five-field identifiers and all bytes; "
+        "by an invariant over arbitrary histories the per-step specification (reversible, no value held twice, one persistent id per user, "
+        "requester and qualifier, an operation changes only its own identifier, answers stable or fresh and issued for the requester asked) "
+        "holds of the model; the property's sentences (stable, pairwise distinct, reversible, transient fresh, manage-local) are proved for "
+        "all in-scope histories; Eptid.make injectivity/determinism proved, Eptid.get distinctness under NoKeyCollision with a "
+        "machine-checked counterexample (known finding). Every run replays ~700 random histories (<= 60 operations, adversarial names) against "
+        "a real IdentDB on a dict, comparing state and answers after every step, plus codec and Eptid pairs.",
+        "Trusted: Lean kernel (+leanchecker thorough); propext/Classical.choice/Quot.sound; harness; random-id generation (recorded ids feed "
+        "the model); md5/sha1 taken as injective; urllib quote/unquote modelled on bytes and tied by exact-output correspondence; dict store only.",
+        "DESIGN.md section 6 C18"),
+    "C19": (
+        "Lean 4 theorems over an executable model of the SP's session cache and logout bookkeeping (shared entity_ids list as explicit heap); trace specification proved by a simulation invariant; per-step differential correspondence with a real Saml2Client",
+        "Machine-checked proof (Lean 4), 14 obligations, PARTIAL for SOAP: for every configuration, clock and history of login / reads / "
+        "clock advance / global logout / logout-response delivery (pending, duplicate, unknown, foreign issuer) / IdP-initiated request / "
+        "cache reset, the model satisfies the trace specification (returned information was stored by a live login of that subject and "
+        "issuer and is unexpired; nothing after the session ended; a step touches at most its own subject; a pending request disappears only "
+        "by being answered; every LogoutRequest names the subject and goes to a provider still awaited; the session ends exactly when the "
+        "last awaited provider answers or the deadline has passed). With answers received over SOAP counted the statement is proved for all "
+        "configurations without SOAP and refuted by a machine-checked counterexample otherwise (known finding C19/soap-answer-not-counted). "
+        "Every run replays 144 directed and ~5000 random histories (<= 40 steps, 1-3 subjects with look-alike NameIDs, 1-3 IdPs, real Servers "
+        "as message sources, stub SOAP transport, virtual clock) against a real Saml2Client; model = implementation after every step; the Lean "
+        "spec is evaluated on the implementation's own trace.",
+        "Trusted: Lean kernel (+leanchecker thorough); propext/Classical.choice/Quot.sound; harness (message rewriting, abstraction of NameIDs "
+        "to indices); real Servers as message sources; stub transport. Response validation is C01/C04/C05/C06; code() injectivity is C18; "
+        "binding choice is C08; messages are unsigned.",
+        "DESIGN.md section 6 C19"),
     "C10": (
         "Lean 4 theorems over an executable model of release filtering + regenerated entity-category tables + differential correspondence",
         "Machine-checked proof (Lean 4), 24 obligations: subset, multiplicity, permitted (restrictions / entity categories / requested "
